@@ -49,6 +49,10 @@ pub struct VmSc {
     /// is known to end
     pub limits: Vec<usize>,
     pub rebuild_at: Option<usize>,
+    /// long execution (thousands of steps of a looping program): only the real loop runs, compared with
+    /// a model-only run at the end (`long_run`)
+    #[serde(default)]
+    pub long: bool,
 }
 
 #[derive(Clone, Copy, Debug, PartialEq, Eq)]
@@ -86,26 +90,37 @@ fn model_matches(m: &M, sn: &Snap, real: &PushState) -> bool {
     *real.stack::<PushProgram>() == exec
 }
 
+/// Output text for messages: long outputs are abbreviated.
+fn short_out(s: &str) -> String {
+    if s.len() <= 160 {
+        format!("{s:?}")
+    } else {
+        let head: String = s.chars().take(60).collect();
+        let tail: String = s.chars().rev().take(40).collect::<Vec<_>>().into_iter().rev().collect();
+        format!("{head:?}..({} bytes)..{tail:?}", s.len())
+    }
+}
+
 fn describe(m: &M) -> String {
     format!(
-        "int={:?} float={:?} bool={:?} exec_len={} out={:?} caps={:?}",
+        "int={:?} float={:?} bool={:?} exec_len={} out={} caps={:?}",
         m.int,
         m.float,
         m.bool,
         m.exec.len(),
-        m.out,
+        short_out(&m.out),
         m.caps
     )
 }
 
 fn describe_snap(s: &Snap) -> String {
     format!(
-        "int={:?} float={:?} bool={:?} exec_len={} out={:?} caps={:?}",
+        "int={:?} float={:?} bool={:?} exec_len={} out={} caps={:?}",
         s.int,
         s.float.iter().map(|b| f64::from_bits(*b)).collect::<Vec<_>>(),
         s.bool,
         s.exec_len,
-        s.out,
+        short_out(&s.out),
         s.caps
     )
 }
@@ -429,7 +444,158 @@ fn same_result(a: LoopResult, b: LoopResult) -> bool {
 /// real-loop comparison for every limit, skip-equals-noop, pause-rebuild-
 /// resume, and (if any) the faulted stepped run.
 #[allow(clippy::too_many_lines)]
+/// Upper bound on the steps of a long execution.
+pub const LONG_CAP: usize = 30_000;
+
+/// Long execution: the real loop alone runs a (typically looping) program for up to `LONG_CAP` steps; a
+/// model-only run of the same length predicts the outcome. Where the model allows more than one outcome
+/// at some step (statement-silent corners) the exact comparison is skipped and only the invariants that
+/// need no prediction are checked (returns, no panic, only overflow aborts, sizes within maxima).
+pub fn long_run(sc: &VmSc, obs: &mut Obs) -> Vec<Tagged> {
+    let mut out = Vec::new();
+    if !crate::vmgen::all_inputs_bound(sc) {
+        return out;
+    }
+    let mut init = sc.init.clone();
+    init.limit = init.limit.min(LONG_CAP);
+    let l = init.limit;
+    let Ok(real) = build_real(&init) else {
+        obs.hit("probe.builder-rejected-initial-contents");
+        return out;
+    };
+    // ---- model-only run (the output is accumulated outside the model so that a step never copies it)
+    let mut m = M::from_init(&init);
+    let mut printed = String::new();
+    let mut steps = 0usize;
+    let mut ambiguous = false;
+    let mut model_fatal: Option<(usize, String)> = None;
+    while steps < l {
+        let Some(p) = m.exec.pop() else { break };
+        let mut outs = pushmodel::perform(&m, &p);
+        if outs.len() != 1 {
+            ambiguous = true;
+            break;
+        }
+        let o = outs.pop().unwrap_or_else(|| unreachable!());
+        let class = o.class;
+        m = o.state;
+        if !m.out.is_empty() {
+            printed.push_str(&m.out);
+            m.out.clear();
+        }
+        if class == Class::Fatal {
+            model_fatal = Some((steps, prog_name(&p)));
+            break;
+        }
+        steps += 1;
+        if steps % 256 == 0 && (m.exec.iter().map(Prog::nodes).sum::<usize>() > 40_000 || printed.len() > 8_000_000) {
+            ambiguous = true; // cost bound of the harness
+            break;
+        }
+    }
+    m.out = printed;
+    obs.count("steps", steps as u64);
+    obs.hit("probe.long-run");
+    if ambiguous {
+        obs.hit("probe.long-run-without-exact-prediction");
+    }
+    if m.out.len() > 65_536 {
+        obs.hit("probe.long-run-output>64KiB");
+    }
+    // ---- the real loop
+    let r = match catch(move || real.run_to_completion()) {
+        Ok(r) => r,
+        Err(p) => {
+            out.push(tag(
+                Prop::C03,
+                "never-panics",
+                "panic:run_to_completion:long".into(),
+                format!("run_to_completion (limit {l}, long execution) panicked: {}", p.message),
+            ));
+            return out;
+        }
+    };
+    let configured = [init.caps.exec, init.caps.int, init.caps.float, init.caps.bool];
+    match r {
+        Ok(fin) => {
+            let sn = snap(&fin);
+            if !sizes_within_caps(&sn, &configured) {
+                out.push(tag(
+                    Prop::C03,
+                    "stack-size-within-max",
+                    "over-max:long".into(),
+                    format!("limit {l}: final state of a long execution exceeds a maximum: {}", describe_snap(&sn)),
+                ));
+            }
+            if !ambiguous {
+                if let Some((t, name)) = &model_fatal {
+                    out.push(tag(
+                        Prop::C01,
+                        "real-loop-vs-model",
+                        "long-missed-fatal".into(),
+                        format!("limit {l}: the model meets a fatal overflow at step {t} ({name}) but run_to_completion returned Ok [{}]", describe_snap(&sn)),
+                    ));
+                } else if !model_matches(&m, &sn, &fin) {
+                    out.push(tag(
+                        Prop::C01,
+                        "real-loop-vs-model",
+                        "long-state-differs".into(),
+                        format!(
+                            "limit {l}: after {steps} model steps the model is in [{}] but run_to_completion ended in [{}]",
+                            describe(&m),
+                            describe_snap(&sn)
+                        ),
+                    ));
+                }
+            }
+        }
+        Err(fe) => {
+            obs.hit("probe.real-loop-fatal");
+            let e = PushError::Fatal(fe);
+            if !is_overflow_err(e.error()) {
+                out.push(tag(
+                    Prop::C03,
+                    "only-overflow-aborts",
+                    "abort:long".into(),
+                    format!("limit {l}: a long execution failed with `{}`", e.error()),
+                ));
+            }
+            let text = format!("{}", e.error());
+            let st = e.into_state();
+            let sn = snap(&st);
+            if !ambiguous {
+                match &model_fatal {
+                    None => out.push(tag(
+                        Prop::C03,
+                        "only-overflow-aborts",
+                        "long-unexpected-fatal".into(),
+                        format!("limit {l}: run_to_completion failed with `{text}` but the model meets no overflow in {steps} steps [{}]", describe(&m)),
+                    )),
+                    Some((t, name)) => {
+                        if !model_matches(&m, &sn, &st) {
+                            out.push(tag(
+                                Prop::C02,
+                                "fatal-carries-pre-state",
+                                "long-fatal-state".into(),
+                                format!(
+                                    "limit {l}: the state carried by the fatal error differs from the model's state before step {t} ({name}): {} vs {}",
+                                    describe_snap(&sn),
+                                    describe(&m)
+                                ),
+                            ));
+                        }
+                    }
+                }
+            }
+        }
+    }
+    out
+}
+
 pub fn simulate(sc: &VmSc, obs: &mut Obs) -> Vec<Tagged> {
+    if sc.long {
+        return long_run(sc, obs);
+    }
     let mut out = Vec::new();
     if !crate::vmgen::all_inputs_bound(sc) {
         // (only reachable through shrinking) the properties exclude unbound inputs
